@@ -63,8 +63,8 @@ func suiteAppAuth(e *vh.Env) {
 	e.Result.Rule = "registered backends {b1: agent1/alice, b2: agent2/bob, b3: agent3/allUsers}; stored requests under b1 and b2; every combination of caller identity {none, agent1, agent2, stranger} x backend ID {b1, b2, unknown, empty} x request ID {b1's, b2's, unknown, empty} x endpoint {fetch, respond} (+ list where it cannot block), compared with the model and with the oracles: non-401 only for the registered backend user, a 401 leaves the datastore unchanged and its body does not depend on stored requests; admin API x {anonymous, signed-in non-admin, OAuth non-admin, admins}; end-user routing x {alice, bob, carol, anonymous}; non-trivial = call naming an existing backend with a wrong or missing identity, or a request ID of another backend"
 	fake.reset()
 	bs := []aeBackend{{"b1", "agent1@svc", "alice@x", []string{"/a"}}, {"b2", "agent2@svc", "bob@x", []string{"/b"}}, {"b3", "agent3@svc", "allUsers", []string{"/shared"}},
-		{"b4", "agent4@svc", "dave@x", []string{"/d"}},     // never polled: not live
-		{"b5", "agent5@svc", "allUsers", []string{"/d"}},   // live, shared, same prefix as dave's own dead backend
+		{"b4", "agent4@svc", "dave@x", []string{"/d"}},       // never polled: not live
+		{"b5", "agent5@svc", "allUsers", []string{"/d"}},     // live, shared, same prefix as dave's own dead backend
 		{"b6", "agent6@svc", "alice@x", []string{"/a/deep"}}} // live, more specific than b1 for alice
 	// admin API first: non-admins get 403 and change nothing
 	js1, _ := json.Marshal(types.Backend{BackendID: "evil", BackendUser: "x@y", EndUser: "allUsers", PathPrefixes: []string{"/"}})
@@ -77,7 +77,10 @@ func suiteAppAuth(e *vh.Env) {
 		wantAdmitted bool
 	}{{"anonymous", "", false, "", false, false}, {"signed-in-user", "", false, "alice@x", false, false}, {"oauth-non-admin", "agent1@svc", false, "", false, false},
 		{"oauth-admin", adminOAuth, true, "", false, true}, {"console-admin", "", false, "root@x", true, true}} {
-		for _, op := range []struct{ method, path string; body []byte }{{"GET", "/api/backends", nil}, {"POST", "/api/backends", js1}, {"DELETE", "/api/backends/evil", nil}} {
+		for _, op := range []struct {
+			method, path string
+			body         []byte
+		}{{"GET", "/api/backends", nil}, {"POST", "/api/backends", js1}, {"DELETE", "/api/backends/evil", nil}} {
 			before := fake.snapshot("LastSeen")
 			h := userHeaders(who.user, who.userAdmin)
 			setIf(h, hdrVerifOAuth, who.oauth)
@@ -107,8 +110,12 @@ func suiteAppAuth(e *vh.Env) {
 	goLive(e, bs[4])
 	goLive(e, bs[5])
 	live := hx("b1") + "," + hx("b2") + "," + hx("b3") + "," + hx("b5") + "," + hx("b6")
-	u1 := async(func() (int, http.Header, []byte) { return userCall("alice@x", false, "rid-alice", "POST", "/a/x", nil, []byte("alice-body")) })
-	u2 := async(func() (int, http.Header, []byte) { return userCall("bob@x", false, "rid-bob", "POST", "/b/y", nil, []byte("bob-body")) })
+	u1 := async(func() (int, http.Header, []byte) {
+		return userCall("alice@x", false, "rid-alice", "POST", "/a/x", nil, []byte("alice-body"))
+	})
+	u2 := async(func() (int, http.Header, []byte) {
+		return userCall("bob@x", false, "rid-bob", "POST", "/b/y", nil, []byte("bob-body"))
+	})
 	r1, ok1 := await(l1, 35*time.Second)
 	r2, ok2 := await(l2, 35*time.Second)
 	if !ok1 || !ok2 || !strings.Contains(string(r1.Body), "rid-alice") || !strings.Contains(string(r2.Body), "rid-bob") {
@@ -238,6 +245,34 @@ func suiteAppAuth(e *vh.Env) {
 			}
 		}
 	}
+	// IDs containing the separators of the cache/datastore keys: backend "team" with request "prod:R" must not
+	// reach request "R" of backend "team:prod" (and similar pairs), neither through the datastore nor through memcache
+	for i, pair := range [][4]string{{"team:prod", "R1", "team", "prod:R1"}, {"t", "x\":\"R2", "t\":\"x", "R2"}, {"q:", "R3", "q", ":R3"}} {
+		victim, vrid, attacker, arid := pair[0], pair[1], pair[2], pair[3]
+		bv := aeBackend{victim, "victim-agent@svc", "vic" + fmt.Sprint(i) + "@x", []string{"/k" + fmt.Sprint(i)}}
+		ba := aeBackend{attacker, "attacker-agent@svc", "att" + fmt.Sprint(i) + "@x", []string{"/z" + fmt.Sprint(i)}}
+		registerBackend(e, bv)
+		registerBackend(e, ba)
+		lv := goLive(e, bv)
+		uc := async(func() (int, http.Header, []byte) {
+			return userCall(bv.endUser, false, vrid, "POST", "/k"+fmt.Sprint(i)+"/secret", nil, []byte("victim-secret-body"))
+		})
+		await(lv, 35*time.Second)
+		stF, _, bodyF := agentCall(ba.agent, ba.id, arid, "/agent/request", "GET", nil)
+		if stF == 200 && bytes.Contains(bodyF, []byte("victim-secret-body")) {
+			e.Fail("C17:cross-backend-fetch", fmt.Sprintf("agent of backend %q fetched the request %q of backend %q by naming request ID %q", ba.id, vrid, bv.id, arid), -1, nil, nil, nil)
+		}
+		stR, _, _ := agentCall(ba.agent, ba.id, arid, "/agent/response", "POST", httpResponseBytes("200 OK", nil, []byte("forged")))
+		if stR == 200 {
+			e.Fail("C17:cross-backend-respond", fmt.Sprintf("agent of backend %q answered the request %q of backend %q by naming request ID %q", ba.id, vrid, bv.id, arid), -1, nil, nil, nil)
+		}
+		agentCall(bv.agent, bv.id, vrid, "/agent/response", "POST", httpResponseBytes("200 OK", nil, []byte("genuine")))
+		if r, ok := await(uc, 10*time.Second); !ok || string(r.Body) != "genuine" {
+			e.Fail("C17:cross-backend-respond", fmt.Sprintf("the client of backend %q received %q instead of its own agent's answer", bv.id, r.Body), -1, nil, nil, nil)
+		}
+		e.Eval("separator-ids:"+victim+"|"+attacker, true)
+		e.Count("separator-ids")
+	}
 	// unauthorised list calls (cannot block: rejected before any wait)
 	for _, c := range []struct{ id, bid string }{{"", "b1"}, {"agent2@svc", "b1"}, {"stranger@svc", "b2"}, {"agent1@svc", "nope"}, {"agent1@svc", ""}} {
 		st, _, _ := agentCall(c.id, c.bid, "", "/agent/pending", "GET", nil)
@@ -330,7 +365,9 @@ func suiteAppRelay(e *vh.Env) {
 			fake.addFault(f)
 		}
 		wire := httpResponseBytes("201 Created", [][2]string{{"Set-Cookie", "a=1"}, {"Set-Cookie", "b=2"}, {"X-Resp", rid}}, respBody)
-		pr := async(func() (int, http.Header, []byte) { return agentCall(b.agent, b.id, rid, "/agent/response", "POST", wire) })
+		pr := async(func() (int, http.Header, []byte) {
+			return agentCall(b.agent, b.id, rid, "/agent/response", "POST", wire)
+		})
 		r, ok := await(pr, 10*time.Second)
 		if !ok {
 			e.Fail("C19:call-hangs:"+key, what+": POST /agent/response did not return within 10 s", idx, nil, nil, nil)
